@@ -507,6 +507,92 @@ func allExact(l Listener) bool {
 	return true
 }
 
+// collisionExplains: the known fast-path finding is about colliding hostnames only.  Two results of the same proxy
+// (fast path / scan path) may differ under that finding iff neither delivers a service the real IsServiceVisible
+// denies and every hostname on which they differ is carried by at least two services of the world.
+func collisionExplains(w World, a, b OScope, leakA, leakB bool) bool {
+	if leakA || leakB {
+		return false
+	}
+	render := func(o OScope) map[string]string {
+		m := map[string]string{}
+		for _, x := range o.Services {
+			m[x.Host] += fmt.Sprint("S", x)
+		}
+		for i, l := range canonListeners(o) {
+			for _, x := range l {
+				m[x.Host] += fmt.Sprint("L", i, x)
+			}
+		}
+		return m
+	}
+	ra, rb := render(a), render(b)
+	count := map[string]int{}
+	for _, sv := range w.Svcs {
+		count[sv.Host]++
+	}
+	differs := false
+	for h, v := range ra {
+		if rb[h] != v {
+			differs = true
+			if count[h] < 2 {
+				return false
+			}
+		}
+	}
+	for h, v := range rb {
+		if ra[h] != v {
+			differs = true
+			if count[h] < 2 {
+				return false
+			}
+		}
+	}
+	return differs
+}
+
+// ownNsInvisible adds to the world a service of namespace cfg that is NOT visible to cfg (exportTo [other], [~],
+// a ServiceEntry-visibility cap, or the mesh default) and returns an all-exact listener importing it in the
+// own-namespace spellings ./host and <cfg>/host.
+func ownNsInvisible(r *randx, w *World, cfg string) Listener {
+	h := vlib.Pick(r.Rand, exactHostPool)
+	other := vlib.Pick(r.Rand, minus(nsPool, []string{cfg}))
+	sv := Svc{Host: h, Ns: cfg, Kube: r.Chance(50) && homeNs(h) == cfg, Ports: genPorts(r), Name: fmt.Sprintf("s%02d", len(w.Svcs))}
+	sv.Ctime = 4*r.Intn(6) + nsIndex(cfg)
+	switch r.Intn(4) {
+	case 0:
+		sv.Export = []string{other}
+	case 1:
+		sv.Export = []string{"~"}
+	case 2:
+		w.M.ApplySidecars = true
+		if r.Chance(50) {
+			sv.Vis, sv.Export = 2, []string{"."}
+		} else {
+			sv.Vis, sv.Export = 1, []string{other}
+		}
+	default:
+		// unset exportTo under a mesh default that does not name the namespace; keep the other services as they are
+		for i := range w.Svcs {
+			if len(w.Svcs[i].Export) == 0 {
+				w.Svcs[i].Export = []string{"*"}
+			}
+		}
+		w.M.SvcDefSet, w.M.SvcDefault = true, []string{other}
+	}
+	w.Svcs = append(w.Svcs, sv)
+	l := Listener{}
+	if r.Chance(50) {
+		l.Hosts = []string{"./" + h}
+	} else {
+		l.Hosts = []string{cfg + "/" + h}
+	}
+	if r.Chance(40) {
+		l.Hosts = append(l.Hosts, vlib.Pick(r.Rand, []string{"ns1", "ns2", "ns3", "."})+"/"+vlib.Pick(r.Rand, exactHostPool))
+	}
+	return l
+}
+
 func addScopeCase(t *testing.T, c *vlib.Collector, id int, w World, cfg string, lbls []string, gateway bool, r *vlib.Rand, extraTags ...string) {
 	var o OScope
 	var leak, fastDiffers bool
@@ -545,7 +631,7 @@ func addScopeCase(t *testing.T, c *vlib.Collector, id int, w World, cfg string, 
 				}
 				defer b2.Close()
 				o2 := runScope(b2, cfg, lbls, gateway)
-				fastDiffers = fmt.Sprint(o.Services) != fmt.Sprint(o2.Services)
+				fastDiffers = collisionExplains(w, o, o2, leak, leaked(b2, cfg, o2))
 			}
 		}
 	})
@@ -589,11 +675,18 @@ func genScope(t *testing.T, c *vlib.Collector, id *int, seed uint64) {
 			}
 		}
 		gateway := r.Chance(12)
+		var extra []string
+		if !gateway && r.Chance(15) {
+			// all-exact Sidecar of the proxy namespace importing an own-namespace service that is not exported to it
+			l := ownNsInvisible(r, &w, cfg)
+			w.SCs = []Sidecar{{Name: 1, Ns: cfg, Ctime: 0, Egress: []Listener{l}}}
+			extra = append(extra, "scope:own-ns-invisible-exact")
+		}
 		sub := r.Sub()
 		if !c.Wanted(*id) {
 			continue
 		}
-		addScopeCase(t, c, *id, w, cfg, lbls, gateway, sub)
+		addScopeCase(t, c, *id, w, cfg, lbls, gateway, sub, extra...)
 	}
 }
 
@@ -609,8 +702,12 @@ func genPaths(t *testing.T, c *vlib.Collector, id *int, seed uint64) {
 		cfg := vlib.Pick(r.Rand, nsPool[:3])
 		nl := 1 + r.Intn(2)
 		var fast, scan []Listener
+		ownShape := r.Chance(25)
 		for i := 0; i < nl; i++ {
 			l := genListener(r, true)
+			if ownShape && i == 0 {
+				l = ownNsInvisible(r, &w, cfg)
+			}
 			fast = append(fast, l)
 			l2 := l
 			l2.Hosts = append(append([]string{}, l.Hosts...), "zz-none/*")
@@ -625,7 +722,7 @@ func genPaths(t *testing.T, c *vlib.Collector, id *int, seed uint64) {
 }
 
 func addPathsCase(t *testing.T, c *vlib.Collector, id int, w World, cfg string, fast, scan []Listener, r *vlib.Rand) {
-	run := func(ls []Listener) OScope {
+	run := func(ls []Listener) (OScope, bool) {
 		w2 := w
 		w2.SCs = []Sidecar{{Name: 1, Ns: cfg, Ctime: 0, Egress: ls}}
 		b, err := build(w2, r)
@@ -633,10 +730,12 @@ func addPathsCase(t *testing.T, c *vlib.Collector, id int, w World, cfg string, 
 			panic(err)
 		}
 		defer b.Close()
-		return runScope(b, cfg, nil, false)
+		o := runScope(b, cfg, nil, false)
+		return o, leaked(b, cfg, o)
 	}
 	var of, os_ OScope
-	if pan, msg := vlib.Recover(func() { of = run(fast); os_ = run(scan) }); pan {
+	var leakF, leakS bool
+	if pan, msg := vlib.Recover(func() { of, leakF = run(fast); os_, leakS = run(scan) }); pan {
 		c.Violate(vlib.Violation{ID: id, Kind: "panic", Detail: msg, Case: map[string]any{"world": w, "cfg": cfg}})
 		return
 	}
@@ -657,7 +756,10 @@ func addPathsCase(t *testing.T, c *vlib.Collector, id int, w World, cfg string, 
 	if collide {
 		tags = append(tags, "paths:colliding-hostnames")
 	}
-	if differ && collide {
+	if leakF || leakS {
+		tags = append(tags, "paths:invisible-service-delivered")
+	}
+	if differ && collisionExplains(w, of, os_, leakF, leakS) {
 		c.FindingOf[id] = findPaths
 		tags = append(tags, "finding:paths")
 	}
